@@ -1,0 +1,32 @@
+//go:build verif
+
+package dht
+
+// Machine-checked contracts of the root package, read by the govc verifier under /verif.
+// Comment-only; excluded from every build without the "verif" tag.
+
+// ---- C18: bucket index and random IDs ----
+
+// prefixlen(a, b) is the number of leading bits (most significant first) on which a and b agree.
+//@ func (*dht.table).bucketIndex
+//@   requires nonnil: tbl != nil
+//@   requires not-root: id.bits != tbl.rootID.bits
+//@   ensures shared-prefix: result == prefixlen(tbl.rootID.bits, id.bits)
+//@   ensures range: 0 <= result && result < 160
+
+//@ func dht.randomIdInBucket
+//@   requires index-range: 0 <= bucketIndex && bucketIndex < 160
+//@   ensures lands-in-bucket: prefixlen(rootId.bits, result.bits) == bucketIndex
+//@   loop 1
+//@     modifies id.bits
+//@     invariant bounds: 0 <= i && i < bucketIndex
+//@     invariant prefix-agrees: forall k int :: 0 <= k && k < 160 && k < i ==> bitat(id.bits, k) == bitat(rootId.bits, k)
+
+//@ func (*dht.table).randomIdForBucket
+//@   requires nonnil: tbl != nil
+//@   requires index-range: 0 <= bucketIndex && bucketIndex < 160
+//@   ensures lands-in-bucket: prefixlen(tbl.rootID.bits, result.bits) == bucketIndex
+
+// krpc.RandomNodeID reads crypto/rand: any 20 bytes
+//@ func dht/krpc.RandomNodeID
+//@   trusted
